@@ -57,6 +57,17 @@ def origin_of(body, defs, op, depth=0):
     return rv["k"]
 
 
+def _class_path(path):
+    """unwrap() and expect("reason") are the same may-panic site: one audited class"""
+    for ty in ("std::option::Option::<T>", "std::result::Result::<T, E>"):
+        if path == ty + "::expect":
+            return ty + "::unwrap"
+    return path
+
+
+DEBUG_ASSERTS = set()     # (function, location) of debug assertions met while enumerating sites: trusted, reported in the evidence
+
+
 def sites(fb, body):
     """Yield dicts describing every may-panic / unchecked-int site in `body` (normal blocks)."""
     nb = mir.normal_blocks(body)
@@ -82,6 +93,9 @@ def sites(fb, body):
             ext = fb.externs.get(path)
             span = t["span"]
             if t["target"] is None:
+                if mir.is_debug_assert(t):
+                    DEBUG_ASSERTS.add((body["path"], loc(span)))
+                    continue
                 yield {"kind": "diverge", "what": path, "what_path": path, "loc": loc(span), "span": span, "fn": body["path"], "key": "diverge|%s" % path}
                 continue
             tr = f.get("trait")
@@ -101,7 +115,7 @@ def sites(fb, body):
                     if cc is not None and cc.get("bits") is not None:
                         c1 = int(cc["bits"])
                 yield {"kind": "maypanic-call", "const_arg1": c1, "what": path, "what_path": path, "ty": recv, "origin": org, "loc": loc(span), "span": span, "fn": body["path"],
-                       "key": "call|%s|%s|<-%s" % (path, recv, org)}
+                       "key": "call|%s|%s|<-%s" % (_class_path(path), recv, org)}
 
 
 def population(fb, paths):
@@ -133,6 +147,9 @@ def audit(fb, chk, rule, group, pop, classes, guards):
         by_key.setdefault(s["nkey"], []).append(s)
     cls = {c["key"]: c for c in classes}
     n_ok = 0
+    if DEBUG_ASSERTS:
+        chk.counts["debug assertions assumed to hold (not may-panic sites)"] = len(DEBUG_ASSERTS)
+        chk.note("debug_assert*! failure arms are treated as assumptions, not as may-panic sites: %s" % sorted("%s@%s" % d for d in DEBUG_ASSERTS)[:20])
     for k, ss in sorted(by_key.items()):
         c = cls.get(k)
         where = sorted({"%s@%s" % (s["fn"].split("::", 1)[-1] if s["fn"].count("::") else s["fn"], s["loc"]) for s in ss})
